@@ -160,6 +160,19 @@ class HarnessError(Exception):
     pass
 
 
+def raised_by_code_under_test(exc) -> bool:
+    """True iff the traceback of `exc` passes through a frame of the repository under
+    test.  An exception raised at the call boundary (wrong signature, missing
+    attribute: innermost frame is the harness) is a harness error, never a violation."""
+    import traceback as _tb
+
+    root = os.path.realpath(REPO) + os.sep
+    for fs in _tb.extract_tb(exc.__traceback__):
+        if os.path.realpath(fs.filename).startswith(root):
+            return True
+    return False
+
+
 # --------------------------------------------------------------------------
 # known findings
 
